@@ -307,6 +307,34 @@ def releasable_set(ctx: Ctx):
                      '' if okc else f'condition is {show(c)}, expected {show(need)}')
 
 
+@rule('C10.NO-EARLY-RELEASE', ['C10'])
+def no_early_release(ctx: Ctx):
+    """One direction of C17.RELEASABLE-SET, the one C10 relies on: a dependency's result is handed out for
+    release only when no unfinished task depends on it any more - whatever the outcome of the finished task.
+    (Releasing *late* keeps memory, it disturbs no other task; releasing *early* makes a healthy dependent of the
+    same dependency fail with 'result not available'.)"""
+    st, sf, fn, sn, tparam = _completion_parts(ctx)
+    if sf.pending_dependents is None:
+        raise AnalysisError('pending-dependents field not identified')
+    PT, DD = sf.pending_dependents, sf.direct_deps
+    n = 0
+    for lp in [x for x in walk_local(fn.node) if isinstance(x, ast.For) and isinstance(x.target, ast.Name)]:
+        if not same_expr(strip_order_preserving(lp.iter), ast.parse(f'{sn}.{DD}[{tparam}]', mode='eval').body):
+            continue
+        dv = lp.target.id
+        for a in [c for c in calls_in(lp) if isinstance(c.func, ast.Attribute) and c.func.attr in ('add', 'append')
+                  and isinstance(c.func.value, ast.Name) and c.args and isinstance(c.args[0], ast.Name) and c.args[0].id == dv]:
+            c = cond_in_loop(ctx, fn, lp, a)
+            need = formula_of(ctx, fn, f'len({sn}.{PT}[{dv}]) == 0')
+            ok = implies(c, need)
+            n += 1
+            yield ctx.ob('C10.NO-EARLY-RELEASE', ok, fn, a, f'{dv} handed out for release only when its dependents are exhausted',
+                         '' if ok else f'released when {show(c)}, which does not imply {show(need)}: a task that still needs '
+                         f'the result of `{dv}` (and has nothing to do with the finished task) fails')
+    if n == 0:
+        raise AnalysisError('no release of a dependency found in the completion method (loop over the direct dependencies)')
+
+
 @rule('C17.DEPENDENTS-BOOK', ['C17'])
 def dependents_book(ctx: Ctx):
     """Pending-dependents bookkeeping: additions only in the construction phase, removals only
